@@ -325,3 +325,22 @@ Definition check_bayes (c : kcase) (o : bobs) : nat :=
        + (if trend_ok then 0 else 16))%nat
   | _, _ => 31%nat
   end.
+
+(* ================= C11: the pymc model assembled by setup_mcmc, evaluated at a parameter point ================= *)
+(* observed at one point (theta = the case's nonlinear parameters, x = linear parameters in kernel units and design-matrix
+   order): the model_rv deterministic, the ln_likelihood deterministic, and logp(all) - logp(free variables only) *)
+Record mobs := mk_mobs { mo_x : list Q; mo_model_rv : list Q; mo_lnlike : Q; mo_data_term : Q }.
+(* bit 0: model_rv = design-matrix row . x at every epoch (same phase, reference-epoch, offset and trend conventions)
+   bit 1: the stored ln_likelihood diagnostic = sum ln N(y_n | rv_n, sigma_n^2 + s^2)
+   bit 2: the observed variable's term of the model's log-density = that same Gaussian data term *)
+Definition check_mcmc (c : kcase) (o : mobs) : nat :=
+  let n := n_times c in
+  let x := map B (mo_x o) in
+  let M := spec_M c in let v := spec_var c in let y := spec_y c in
+  let Mx := map (fun r => dotq r x) M in
+  let q_lik := qsum (map (fun t => let '(yn, mn, vn) := t in bdiv (sqb (bsub yn mn)) vn) (zip3 y Mx v)) in
+  let ll_lik := RMul (RC (-1) 2) (RAdd (rq q_lik) (RAdd (ln2pi_n n) (RLn (rq (qprod v))))) in
+  let rv_ok := blist_approx (1 # 100000000) Mx (mo_model_rv o) in
+  let like_ok := rclose 70 (tol_rel (1 # 100000000) (mo_lnlike o)) ll_lik (mo_lnlike o) in
+  let data_ok := rclose 70 (tol_rel (1 # 10000000) (mo_data_term o)) ll_lik (mo_data_term o) in
+  ((if rv_ok then 0 else 1) + (if like_ok then 0 else 2) + (if data_ok then 0 else 4))%nat.
